@@ -99,6 +99,7 @@ def build_harness(workdir):
 
 VIOL_RE = re.compile(
     r'<<\s*"OBS-VIOLATION",\s*"(\w+)",\s*"line",\s*(\d+),\s*"tr",\s*(\d+),\s*"act",\s*"(\w+)",\s*"node",\s*(\d+)((?:,\s*"[\w-]+")*)\s*>>')
+DRIFT_RE = re.compile(r'<<\s*"OBS-DRIFT",\s*"line",\s*(\d+),\s*"tr",\s*(\d+),\s*"act",\s*"(\w+)",\s*"node",\s*(\d+),\s*"fields",\s*(\{.*?\})\s*>>', re.S)
 DONE_RE = re.compile(r'<<\s*"OBS-DONE",\s*"events",\s*(\d+),\s*"violations",\s*(\d+)\s*>>')
 
 
@@ -127,7 +128,7 @@ def observe(trace_files, workdir, invs=None, timeout=3600):
     sd = spec_dir(workdir)
     t0 = time.time()
     procs = []
-    results = {"events": 0, "violations": [], "files": len(trace_files), "tlc_errors": []}
+    results = {"events": 0, "violations": [], "files": len(trace_files), "tlc_errors": [], "drift": []}
     invfile = ""
     if invs is not None:
         invfile = os.path.join(workdir, "invs.json")
@@ -138,7 +139,7 @@ def observe(trace_files, workdir, invs=None, timeout=3600):
 
     def start(k, tf):
         meta = os.path.join(workdir, "meta_obs_%d" % k)
-        env = dict(os.environ, VERIF_TRACE=tf, VERIF_INVS=invfile)
+        env = dict(os.environ, VERIF_TRACE=tf, VERIF_INVS=invfile, VERIF_CONFORM=os.environ.get("VERIF_CONFORM", "1"))
         outf = open(os.path.join(workdir, "obs_%d.out" % k), "w")
         p = subprocess.Popen(tlc_obs_cmd() + ["-workers", "1", "-metadir", meta, "-config", "TraceObs.cfg", "TraceObs.tla"],
                              cwd=sd, env=env, stdout=outf, stderr=subprocess.STDOUT)
@@ -166,6 +167,9 @@ def observe(trace_files, workdir, invs=None, timeout=3600):
                 results["tlc_errors"].append({"file": tf, "tail": txt[-3000:]})
                 continue
             results["events"] += int(m.group(1))
+            for dm in DRIFT_RE.finditer(txt):
+                results["drift"].append({"line": int(dm.group(1)), "tr": int(dm.group(2)), "act": dm.group(3), "node": int(dm.group(4)),
+                                         "fields": re.sub(r"\s+", "", dm.group(5))[:300], "file": tf})
             for v in VIOL_RE.finditer(txt):
                 tags = re.findall(r'"([\w-]+)"', v.group(6) or "")
                 results["violations"].append({"inv": v.group(1), "line": int(v.group(2)), "tr": int(v.group(3)),
